@@ -273,7 +273,9 @@ struct Glue
     static void emplace_back_impl(Vec& v, const MElem& m, std::index_sequence<I...>)
     {
         auto args = std::tuple<decltype(make_arg<I>(m.f[I]))...>{make_arg<I>(m.f[I])...};
+#ifndef VF_NO_LIBCALL  // the multi-threaded race engine must not touch the (single-threaded) ledger
         LibCall lc;  // the arguments are built outside: only the library call itself is watched for operator new
+#endif
         v.emplace_back(std::move(std::get<I>(args))...);
     }
 
